@@ -27,7 +27,8 @@ def _index_list(ex, idx):
         if it.k == 'Slice':
             lo = ex.eval(it.lo) if it.lo is not None else None
             hi = ex.eval(it.hi) if it.hi is not None else None
-            if it.step is not None:
+            st = ex.eval(it.step) if it.step is not None else None
+            if st is not None and not (isinstance(st, int) and st == 1):
                 raise Unsupported('strided slice')
             out.append(('s', lo, hi))
         else:
